@@ -216,7 +216,7 @@ def judge(rec, case, files, tops, ref, pkgs, load_order=()) -> list[tuple]:  # n
                 rec.count("composed_exports_lists_compared")
             unexpanded = [str(e) for e in gmod.exports or () if not isinstance(e, str)]
             if unexpanded:
-                fid = F_EXPORTS_STACK if gmod.path in late["groups"][F_EXPORTS_STACK]["raw"] else None
+                fid = F_EXPORTS_STACK if gmod.path in late["groups"].get(F_EXPORTS_STACK, {}).get("raw", ()) else None
                 problems.append((f"__all__ of {gmod.path} keeps unexpanded element(s) after loading and resolving", unexpanded,
                                  rmod["all"], fid, [F_EXPORTS_STACK]))
                 continue
@@ -254,6 +254,11 @@ def judge(rec, case, files, tops, ref, pkgs, load_order=()) -> list[tuple]:  # n
                     # (set_member re-targets the aliases of a replaced non-alias member, not those of a replaced alias)
                     if fresh is not None and fresh.path == want["id"] and hop is not None and hop.is_alias:
                         fid = "C05-early-resolution-stale-target"
+                    else:
+                        # second form: re-targeted past an intermediate alias that was replaced afterwards
+                        again = retargeted_past_replaced_alias(collection, files, gmod.path, n, m)
+                        if again is not None and again.path == want["id"]:
+                            fid = "C05-early-resolution-stale-target"
                 problems.append((f"{gmod.path}.{n} refers to a different definition", got, want, fid, tried))
                 continue
             if m.is_alias:
@@ -429,10 +434,77 @@ def implicit_submodule_names(files: dict, ref: dict) -> dict[str, set[str]]:
     return implicit
 
 
-def relookup_by_path(collection, alias):  # noqa: ANN001, ANN201
+def declared_import_path(files: dict, mod_path: str, name: str, classes: tuple = (), lineno: int | None = None) -> str | None:
+    """The absolute path that the import statement binding ``name`` in that scope (module, or nested class bodies) names -
+    the statement on line ``lineno`` (the alias member's own line: a wildcard-created member has none), else the last
+    one - read from the source, independent of what the loader made of it."""
+    import ast
+
+    rel = mod_path.replace(".", "/")
+    is_pkg = rel + "/__init__.py" in files
+    src = files.get(rel + "/__init__.py") if is_pkg else files.get(rel + ".py")
+    if src is None:
+        return None
+    body = ast.parse(src).body
+    for cname in classes:
+        body = next((n.body for n in body if isinstance(n, ast.ClassDef) and n.name == cname), [])
+    found = None
+    for node in body:
+        if isinstance(node, ast.ImportFrom):
+            if node.level:
+                base = mod_path.split(".") if is_pkg else mod_path.split(".")[:-1]
+                base = base[: len(base) - (node.level - 1)]
+                srcmod = ".".join(base + ([node.module] if node.module else []))
+            else:
+                srcmod = node.module or ""
+            for a in node.names:
+                if a.name != "*" and (a.asname or a.name) == name and lineno in (None, node.lineno):
+                    found = f"{srcmod}.{a.name}"
+                elif a.name == "*" and lineno == node.lineno:
+                    found = f"{srcmod}.{name}"      # a member created by this wildcard statement stands for `srcmod.name`
+        elif isinstance(node, ast.Import):
+            for a in node.names:
+                if (a.asname or a.name.split(".")[0]) == name and lineno in (None, node.lineno):
+                    found = a.name if a.asname else a.name.split(".")[0]
+    return found
+
+
+def retargeted_past_replaced_alias(collection, files: dict, mod_path: str, name: str, member, classes: tuple = ()):  # noqa: ANN001, ANN201
+    """Second form of the early-resolution mechanism: an alias on the chain was resolved during loading and then
+    *re-targeted* (set_member re-targets every alias registered with a replaced non-alias member, the indirect ones too,
+    straight to the new member), so its target path is no longer the one its import statement names and the intermediate
+    module's later re-binding of the imported name (an alias replaced by a wildcard import) is bypassed.  Follows the
+    chain by path through the collection from ``member``, taking at every statement-bound alias the path its import
+    statement *names*; returns the object reached if at least one hop had been re-targeted, else None."""
+    if not member.is_alias:
+        return None
+    retargeted = False
+    obj, scope_path, scope_classes = member, mod_path, classes
+    seen: set[str] = set()
+    for _ in range(50):
+        declared = declared_import_path(files, scope_path, obj.name, scope_classes, obj.alias_lineno or -1)
+        if declared is not None and obj.resolved and obj.target_path != declared:
+            retargeted = True
+        path = declared if declared is not None else obj.target_path
+        if path in seen:
+            return None
+        seen.add(path)
+        try:
+            obj = collection.get_member(path)
+        except Exception:  # noqa: BLE001
+            return None
+        if not obj.is_alias:
+            return obj if retargeted else None
+        if obj.parent is None or not obj.parent.is_module:
+            return None
+        scope_path, scope_classes = obj.parent.path, ()
+    return None
+
+
+def relookup_by_path(collection, alias, start: str | None = None):  # noqa: ANN001, ANN201
     """Follow an alias chain by *paths*, asking the collection again at every hop (ignores the cached `_target`s)."""
     seen = set()
-    path = alias.target_path
+    path = start if start is not None else alias.target_path
     for _ in range(50):
         if path in seen:
             return None
@@ -650,6 +722,15 @@ def count_composition_classes(rec, files: dict, ref: dict) -> None:  # noqa: ANN
                 rec.count("exports_composition_chains")
 
 
+def explains(fid: str) -> bool:
+    """Only findings listed with status "known" may explain a discrepancy: the classifier of a repaired ("fixed")
+    mechanism is never offered (it could shadow a listed explanation of the same witness; the mechanism coming back is
+    a violation)."""
+    from vf.core.rec import known_findings
+
+    return known_findings().get(fid, {}).get("status") == "known"
+
+
 F_SESSION = "C05-wildcard-consumed-before-its-source-is-complete"
 F_WILD_STACK = "C05-wildcard-over-module-still-being-expanded"
 F_EXPORTS_STACK = "C05-exports-spliced-from-module-still-being-expanded"
@@ -769,7 +850,8 @@ def session_effects(files: dict, ref: dict, load_order: list[str]) -> dict:
                 raw.add(m_mod)
                 changed = True
     g3 = {**propagate(d3, never, never), "raw": raw}
-    return {**g1, "groups": {F_SESSION: g1, F_WILD_STACK: g2, F_EXPORTS_STACK: g3}}
+    groups = {F_SESSION: g1, F_WILD_STACK: g2, F_EXPORTS_STACK: g3}
+    return {**g1, "groups": {fid: g for fid, g in groups.items() if explains(fid)}}
 
 
 def passes_through_missed(collection, mod_path: str, name: str, missed: dict) -> bool:  # noqa: ANN001
@@ -820,7 +902,8 @@ def classify_target(mod_path: str, name: str, got: dict, want: dict, files: dict
         if passes_through_missed(collection, mod_path, name, g["missed"]):
             return fid, tried
     tried.append("C05-repeated-wildcard-skip-keeps-older-line")
-    if ref is not None and got and repeated_wildcard_keeps_older_line(mod_path, name, got, want, files, ref):
+    if ref is not None and got and explains("C05-repeated-wildcard-skip-keeps-older-line") and repeated_wildcard_keeps_older_line(
+            mod_path, name, got, want, files, ref):
         return "C05-repeated-wildcard-skip-keeps-older-line", tried
     return None, tried
 
